@@ -35,6 +35,13 @@ CHECKS = {
         note="Trusted: the choice-point generator reproduces numpy's Generator.choice law (with/without replacement, weights). Tables outside the stated preconditions are used only for the refusal clause.",
         technique="exhaustive enumeration of generator answers in the real scheduler, exact distribution compared with a reference model",
     ),
+    "C17": dict(
+        category="model_checking",
+        text="Every expression tree with <= 4 leaf nodes over 5 move kinds (displacement, exchange, cell, generic, Hamiltonian) and over 4 operation kinds, with binary + in every parenthesisation and '* n' (n in 1..3) on any one node, is built with the real operators and compared bottom-up, node by node, with a flatten-and-classify reference model (identity, order and multiplicity of elementary objects; specialised vs plain composite class). Invalid multipliers must raise; plain composites of probe moves are called with every vector of scripted results (<= 4 elements, left and right nesting).",
+        design_ref="4-C17",
+        note="Bounded size: 4 leaf nodes, one multiplication per tree. n * composite (left multiplication) is not part of the statement and is not demanded.",
+        technique="exhaustive enumeration of expression trees evaluated on the implementation against a reference model",
+    ),
 }
 
 NA_REASON = "check not built yet in this session (design in DESIGN.md); no claim is made"
